@@ -66,9 +66,9 @@ pub fn spec(prop: &str) -> Option<PropSpec> {
         "C13" => s("C13", "exploration", 60000, 1500000, &["probe.block_read_back"], &["probe.commit_ok"],
             "commit graph monitors around every commit and at every sync point; non-trivial = blocks were read back and compared with their files; distinct = distinct op sequence hash",
             &["probe.block_read_back", "probe.checkpoint_multihead", "probe.block_index_ge_10", "probe.graph_checked_in_time_travel"]),
-        "C14" => s("C14", "exploration", 40000, 600000, &["probe.reload_until"], &[],
-            "reload_until / new_until for heads the replica had before, compared with the recorded checkpoint and the reference restricted to ancestors; non-trivial = at least one time travel executed; distinct = distinct op sequence hash",
-            &["probe.reload_until", "probe.reload_until_multihead", "probe.history_rev_checked"]),
+        "C14" => s("C14", "exploration", 25000, 400000, &["probe.reload_until"], &[],
+            "reload_until / new_until for heads the replica had before (sampled inside the run; at the end of each history every replica travels to each of its checkpoints and back — every head set the replica ever had when there are at most 10, else 10 of them), compared with the recorded checkpoint and the reference restricted to ancestors; non-trivial = at least one time travel executed; distinct = distinct op sequence hash",
+            &["probe.reload_until", "probe.reload_until_multihead", "probe.history_rev_checked", "enum.c14_checkpoint_forks", "enum.c14_multihead_forks"]),
         "C15" => s("C15", "exploration", 100000, 1500000, &["probe.unstage_compared", "probe.stage_roundtrip", "probe.refresh_with_stage"], &[],
             "staged operations of any mix followed by unstage / export+replay / commit / refused refresh; non-trivial = at least one of those comparisons ran; distinct = distinct op sequence hash",
             &["probe.unstage_compared", "probe.stage_roundtrip", "probe.refresh_with_stage", "probe.objop", "probe.resolve"]),
